@@ -311,7 +311,8 @@ Fixpoint convert (cols : columns) : option tcolumns :=
 
 Definition row := list (bytes * cell).       (* non-NULL cells of the columns Parquet keeps *)
 
-Record srow := { r_dir : bytes * bytes; r_cells : row }.   (* (database, measurement) directory *)
+Definition dir_t := (bytes * bytes)%type.
+Record srow := { r_dir : dir_t; r_cells : row }.   (* (database, measurement) directory *)
 
 (* inferSchema / getSchema skip columns whose name starts with '_' *)
 Definition stored_name (n : bytes) : bool :=
@@ -377,15 +378,20 @@ Record variant := {
   v_strict_keys : bool;         (* row callback: legacy keys measurement/m/database only for rows without _measurement *)
   v_rows_no_renorm : bool;      (* row replay does not guess the time unit again *)
   v_flush_before_delete : bool; (* recovery flushes the replayed rows before deleting the WAL file *)
-  v_int_m : bool                (* parseColumnarEntry accepts the integer measurement ids the decoder accepts *)
+  v_int_m : bool;               (* parseColumnarEntry / the replica accept the integer measurement ids the decoder accepts *)
+  v_repl_rows : bool;           (* the replica routes row-format entries by the rows' _database (strict keys, no time re-scaling) *)
+  v_empty_meas_checked : bool;  (* extractMeasurements does not skip the empty measurement name *)
+  v_convert_first : bool        (* writeColumnarInternal converts before it appends to the WAL *)
 }.
 
 Definition v_current : variant :=
   {| v_routing_last := false; v_strict_keys := false; v_rows_no_renorm := false;
-     v_flush_before_delete := false; v_int_m := false |}.
+     v_flush_before_delete := false; v_int_m := false; v_repl_rows := false;
+     v_empty_meas_checked := false; v_convert_first := false |}.
 Definition v_fixed : variant :=
   {| v_routing_last := true; v_strict_keys := true; v_rows_no_renorm := true;
-     v_flush_before_delete := true; v_int_m := true |}.
+     v_flush_before_delete := true; v_int_m := true; v_repl_rows := true;
+     v_empty_meas_checked := true; v_convert_first := true |}.
 
 (* ------------------------------------------------------------------------------------ *)
 (* what is appended to the WAL                                                            *)
@@ -635,22 +641,84 @@ Fixpoint apply_groups (san : bytes -> bytes) (now : Z) (db : bytes) (recs : list
       | [] => apply_groups san now db recs rest
       | _ => match write_nowal san true now db m cols with
              | Some b => fst b ++ apply_groups san now db recs rest
-             | None => []          (* iteration order of the groups is Go map order: see case_replica_det *)
+             | None => []          (* iteration order of the groups is Go map order: see f_det *)
              end
       end
   end.
 
-Definition apply_replicated (san : bytes -> bytes) (now : Z) (e : entry) : list srow :=
+(* ---- the repaired row branch: route every row like the recovery callback does ---- *)
+
+Definition strict_v : variant :=
+  {| v_routing_last := true; v_strict_keys := true; v_rows_no_renorm := true; v_flush_before_delete := true;
+     v_int_m := true; v_repl_rows := true; v_empty_meas_checked := true; v_convert_first := true |}.
+
+(* (database, measurement) a replicated row is routed to; None = skipped *)
+Definition repl_target (dflt : bytes) (rec : rowmap) : option dir_t :=
+  match rec_route strict_v rec with
+  | Some (db, meas, _) =>
+      Some (if nonempty (str_key k_udb rec) then db
+            else if negb (nonempty (str_key k_umeas rec)) && nonempty (str_key k_db rec) then db else dflt, meas)
+  | None => None
+  end.
+
+Definition dir_t_eqb (a b : dir_t) : bool := bytes_eqb (fst a) (fst b) && bytes_eqb (snd a) (snd b).
+
+Fixpoint group_targets (dflt : bytes) (recs : list rowmap) (acc : list dir_t) : list dir_t :=
+  match recs with
+  | [] => acc
+  | r :: rest =>
+      group_targets dflt rest
+        (match repl_target dflt r with
+         | Some t => if existsb (dir_t_eqb t) acc then acc else acc ++ [t]
+         | None => acc
+         end)
+  end.
+
+Definition strict_drop (rec : rowmap) (k : bytes) : bool :=
+  is_routing_u k || (negb (nonempty (str_key k_umeas rec)) && (bytes_eqb k k_meas || bytes_eqb k k_m || bytes_eqb k k_db)).
+
+Fixpoint strict_columns_keys (rows : list rowmap) (acc : list bytes) : list bytes :=
+  match rows with
+  | [] => acc
+  | r :: rest =>
+      strict_columns_keys rest
+        (fold_left (fun a kv => if strict_drop r (fst kv) || memb (fst kv) a then a else a ++ [fst kv]) r acc)
+  end.
+
+Definition strict_columns (rows : list rowmap) : columns :=
+  map (fun k => (k, map (fun r => if strict_drop r k then GNil
+                                  else match lookupb k r with Some x => x | None => GNil end) rows))
+      (strict_columns_keys rows []).
+
+Fixpoint apply_targets (san : bytes -> bytes) (now : Z) (dflt : bytes) (recs : list rowmap) (ts : list dir_t) : list srow :=
+  match ts with
+  | [] => []
+  | t :: rest =>
+      let rows := filter (fun r => match repl_target dflt r with Some t' => dir_t_eqb t t' | None => false end) recs in
+      match strict_columns rows with
+      | [] => apply_targets san now dflt recs rest
+      | cols => match write_nowal san false now (fst t) (snd t) cols with
+                | Some b => fst b ++ apply_targets san now dflt recs rest
+                | None => []
+                end
+      end
+  end.
+
+Definition apply_replicated (v : variant) (san : bytes -> bytes) (now : Z) (e : entry) : list srow :=
   match e with
   | EEnv db top =>
-      match lookupb k_m top, lookupb k_columns top with
-      | Some (GStr meas), Some (GMap l) =>
+      let m := if v_int_m v then extract_meas (lookupb k_m top)
+               else match lookupb k_m top with Some (GStr s) => Some s | _ => None end in
+      match m, lookupb k_columns top with
+      | Some meas, Some (GMap l) =>
           if nonempty meas && negb (Nat.eqb (List.length l) 0) && negb (Nat.eqb (List.length (array_cols l)) 0) then
             match write_nowal san true now db meas (array_cols l) with Some b => fst b | None => [] end
           else []       (* falls to the row branch, which cannot decode a map: skipped *)
       | _, _ => []
       end
-  | ERows recs => apply_groups san now k_default recs (group_names recs [])
+  | ERows recs =>
+      if v_repl_rows v then apply_targets san now k_default recs (group_targets k_default recs [])
+      else apply_groups san now k_default recs (group_names recs [])
   end.
 
 (* ------------------------------------------------------------------------------------ *)
@@ -741,10 +809,10 @@ Definition write1 (v : variant) (san : bytes -> bytes) (now : Z) (s : state) (w 
                s_act := if s_gate s then s_act s ++ es else s_act s;
                s_gate := s_gate s; s_chan := if s_gate s then s_chan s else s_chan s ++ es;
                s_buf := s_buf s; s_rbuf := s_rbuf s; s_sigs := s_sigs s; s_repl := s_repl s;
-               s_replica := if s_repl s then s_replica s ++ flat_map (apply_replicated san now) es else s_replica s;
+               s_replica := if s_repl s then s_replica s ++ flat_map (apply_replicated v san now) es else s_replica s;
                s_due := s_due s; s_pend := s_pend s |} in
   match live_batch san now w with
-  | None => (s1, None)
+  | None => (if v_convert_first v then s else s1, None)     (* rejected: nothing appended when the conversion comes first *)
   | Some b => (buffer_add s1 (batch_dir db meas) b false, Some (fst b))
   end
   end.
@@ -887,8 +955,8 @@ Inductive mrec :=
 
 Inductive dres := DRec (r : mrec) | DList (l : list mrec) | DErr | DUnsup.
 
-Definition unit_us (ts : Z) : Z :=            (* extractTimestamp + rowsToColumnar's UnixMicro *)
-  if ts <? 10000000000 then ts * 1000000
+Definition unit_us (ts : Z) : Z :=            (* extractTimestamp + rowsToColumnar's UnixMicro (int64 arithmetic) *)
+  if ts <? 10000000000 then wrap64 (ts * 1000000)
   else if ts <? 10000000000000 then ts * 1000
   else if ts <? 10000000000000000 then ts
   else Z.quot ts 1000.
@@ -998,10 +1066,10 @@ Definition decode_payload (san : bytes -> bytes) (now : Z) (payload : gval) : op
   end.
 
 (* api.MsgPackHandler.extractMeasurements: the non-empty measurement names, nested lists included *)
-Fixpoint rec_measurements (r : mrec) : list bytes :=
+Fixpoint rec_measurements (v : variant) (r : mrec) : list bytes :=
   match r with
-  | MCol m _ _ | MRow m _ _ _ => if nonempty m then [m] else []
-  | MNest l => flat_map rec_measurements l
+  | MCol m _ _ | MRow m _ _ _ => if nonempty m || v_empty_meas_checked v then [m] else []
+  | MNest l => flat_map (rec_measurements v) l
   end.
 
 (* ArrowBuffer.rowsToColumnar for the rows of one measurement *)
@@ -1079,7 +1147,7 @@ Definition or_default (s : bytes) : bytes := match s with [] => k_default | _ =>
 Definition allowed (allow_all : bool) (allow : list (bytes * bytes)) (db m : bytes) : bool :=
   allow_all || existsb (fun dm => bytes_eqb (fst dm) db && bytes_eqb (snd dm) m) allow.
 
-Definition front (san : bytes -> bytes) (now : Z) (allow_all : bool) (allow : list (bytes * bytes)) (r : hreq) : option fres :=
+Definition front (v : variant) (san : bytes -> bytes) (now : Z) (allow_all : bool) (allow : list (bytes * bytes)) (r : hreq) : option fres :=
   match r with
   | HLP ep qdb hdb pr filter_m pts =>
       let db := match ep with
@@ -1116,7 +1184,7 @@ Definition front (san : bytes -> bytes) (now : Z) (allow_all : bool) (allow : li
           let db := or_default hdb in
           if negb (valid_db db) then Some (reject 400 db [])
           else
-            let ms := dedup (flat_map rec_measurements rs) [] in
+            let ms := dedup (flat_map (rec_measurements v) rs) [] in
             if negb (forallb valid_meas ms) then Some (reject 400 db [])
             else if negb (forallb (allowed allow_all allow db) ms) then Some (reject 403 db ms)
             else
@@ -1199,7 +1267,7 @@ Fixpoint case_supported_from (v : variant) (evs : list hevent) : bool :=
   match evs with
   | [] => true
   | HWrite now aa al rq _ _ :: r =>
-      match front idsan now aa al rq with
+      match front v idsan now aa al rq with
       | Some f => f_det f && case_supported_from v r
       | None => false
       end
@@ -1223,7 +1291,7 @@ Fixpoint run_case (v : variant) (s : state) (evs : list hevent) : state * bool :
             (s', Nat.eqb (List.length (s_files s')) (if killed then S nleft else nleft)
                  && Bool.eqb killed (negb (s_run s')))
         | HWrite now aa al rq status checked =>
-            match front idsan now aa al rq with
+            match front v idsan now aa al rq with
             | None => (s, false)
             | Some f =>
                 let '(ws, tail_ok) := fres_writes f in
@@ -1263,19 +1331,19 @@ Definition case_oracle (c : ccase) : bool :=
 
 (* C32: every stored row (locally and on the replica) lies in the directory of a database a
    request named and a measurement whose write permission was checked for that request *)
-Fixpoint allowed_dirs (evs : list hevent) : list bytes :=
+Fixpoint allowed_dirs (v : variant) (evs : list hevent) : list bytes :=
   match evs with
   | [] => []
   | HWrite now aa al rq status checked :: r =>
-      (match front idsan now aa al rq with
+      (match front v idsan now aa al rq with
        | Some f => if status =? 403 then []
                    else filter (fun d => memb d (map (dir_of (f_db f)) (f_checked f))) checked
-       | None => [] end) ++ allowed_dirs r
-  | _ :: r => allowed_dirs r
+       | None => [] end) ++ allowed_dirs v r
+  | _ :: r => allowed_dirs v r
   end.
 
 Definition case_oracle32 (c : ccase) : bool :=
-  let dirs := allowed_dirs (c_events c) in
+  let dirs := allowed_dirs (c_variant c) (c_events c) in
   forallb (fun o => memb (o_dir o) dirs) (c_stored c) && forallb (fun o => memb (o_dir o) dirs) (c_replica c).
 
 (* all verdicts of a case from ONE run of the model: bit 0 supported, 1 agrees, 2 C05 oracle, 3 C32 oracle *)
